@@ -132,7 +132,9 @@ func replayKnown(t *testing.T, property string) {
 			rec.Note("open finding " + f.ID + " no longer reproduces from its replay")
 		case f.Status == "fixed" && res != nil:
 			rec.Violate(rf.Check, rf.Case, "regression of fixed finding %s: %s", f.ID, res.Msg)
-			t.Errorf("regression of fixed finding %s: %s", f.ID, res.Msg)
+			// stop this shard here: rapid refuses to run under a *testing.T that has already failed, and its
+			// panic would end the process before the recorder is flushed
+			t.Fatalf("regression of fixed finding %s: %s", f.ID, res.Msg)
 		}
 	}
 }
